@@ -291,6 +291,9 @@ func main() {
 	}
 	e1.RunAll(r, scenarios, 0)
 	if r.Worker == "" && r.Replay == "" {
+		e1.Conformance(r)
+	}
+	if r.Worker == "" && r.Replay == "" {
 		vs.Run(nil, nil, vs.Options{}, func() { mappingSweep(r) })
 	}
 	r.Rule("every sequence of 0..2 datagrams over 8 classes x 5 arrival times (0.1T, 0.5T, T-e, T, T+e), every 3-datagram class sequence at two fixed time patterns (thorough: also simultaneous arrivals and 4 datagrams), broadcast address unset / port 60005, each under all interleavings of the reader goroutine and the sleeping caller within the preemption bound; plus a driver-level sweep of one reply through the result mapping (every byte value of address/mask/gateway/MAC/version/serial, all 65536 version, year and month-day byte pairs) x {unnamed + default port, named + port 60005}. distinct = distinct (entries, datagrams) labels")
